@@ -5,7 +5,7 @@
    (Gen/C16_RW.v); parsers, serialisers, getParser and the file system are arbitrary functions. *)
 From Coq Require Import ZArith List Bool String.
 From DS Require Import Model.C16_ReadWriteTxn Gen.C16_RW Model.C16_Methods.
-From DS Require Import Proofs.C16_Atomic Proofs.C16_Main Proofs.C16_AnyFailure Proofs.C16_NoneResult.
+From DS Require Import Proofs.C16_Atomic Proofs.C16_Main Proofs.C16_AnyFailure.
 Open Scope string_scope.
 
 (* If the parse call of the entry point raises (or getParser does: then the premise holds vacuously),
@@ -34,10 +34,11 @@ Theorem C16_write_failure_keeps_file : forall E G o fs n,
 Proof. exact write_failure_keeps_file. Qed.
 Print Assumptions C16_write_failure_keeps_file.
 
-(* After a successful read every item of the target refers to the target's lattice. *)
-Theorem C16_atoms_point_to_target_lattice : forall E G c en o fs n p ps sg fr,
+(* After a successful read every item of the target refers to the target's lattice
+   (r = what the parser returned: a structure, or None). *)
+Theorem C16_atoms_point_to_target_lattice : forall E G c en o fs n p r sg fr,
   e_getparser E (g_format G) = Ok p ->
-  parse_of G en fs p = {| po_result := Ok (Some ps); po_sg := sg |} ->
+  parse_of G en fs p = {| po_result := Ok r; po_sg := sg |} ->
   run_read E G c en (frame_of o fs n) = Done fr ->
   atoms_point_to_lattice (f_self fr).
 Proof. exact atoms_point_to_target_lattice. Qed.
@@ -45,25 +46,16 @@ Print Assumptions C16_atoms_point_to_target_lattice.
 
 (* After a successful read the observable state (class, atom payloads, title, pdffit, xcfg, lattice cell and
    every attribute the parsed structure carries) equals that of the same read into a brand-new object
-   of the same class - whatever the target held before.  The parse result is a Structure instance, which
-   always has its lattice in the instance dictionary (third premise). *)
-Theorem C16_read_success_eq_fresh : forall E G en o fs n id' n' p ps sg fr fr',
+   of the same class - whatever the target held before, and whatever the parser returned: a structure, or
+   None (P_cif on CIF text without atom sites), for which the statements use an empty Structure()
+   (`effective`).  A returned structure is a Structure instance, which always has its lattice in the
+   instance dictionary (third premise). *)
+Theorem C16_read_success_eq_fresh : forall E G en o fs n id' n' p r sg fr fr',
   e_getparser E (g_format G) = Ok p ->
-  parse_of G en fs p = {| po_result := Ok (Some ps); po_sg := sg |} ->
-  In "_lattice" (map fst (p_inst ps)) ->
+  parse_of G en fs p = {| po_result := Ok r; po_sg := sg |} ->
+  (forall ps, r = Some ps -> In "_lattice" (map fst (p_inst ps))) ->
   run_read E G (o_cls o) en (frame_of o fs n) = Done fr ->
   run_read E G (o_cls o) en (frame_of (fresh E (o_cls o) id') fs n') = Done fr' ->
-  observe (observed_names ps) (f_self fr) = observe (observed_names ps) (f_self fr').
+  observe (observed_names (effective E r)) (f_self fr) = observe (observed_names (effective E r)) (f_self fr').
 Proof. exact read_success_eq_fresh. Qed.
 Print Assumptions C16_read_success_eq_fresh.
-
-(* The premise "the parser returned a structure" matters: when a parser hands back None (P_cif does for
-   CIF text without atom sites) the read succeeds and the target keeps its old atoms and lattice, unlike
-   a new object.  Witness replayed on the real code by the finder (known finding C16-none-result-keeps-content). *)
-Theorem C16_read_none_result_refuted : exists E G en o fs n id' n' p sg fr fr',
-  e_getparser E (g_format G) = Ok p /\ parse_of G en fs p = {| po_result := Ok None; po_sg := sg |} /\
-  run_read E G (o_cls o) en (frame_of o fs n) = Done fr /\
-  run_read E G (o_cls o) en (frame_of (fresh E (o_cls o) id') fs n') = Done fr' /\
-  observe ("_lattice" :: nil) (f_self fr) <> observe ("_lattice" :: nil) (f_self fr').
-Proof. exact read_none_result_refuted. Qed.
-Print Assumptions C16_read_none_result_refuted.
